@@ -127,6 +127,14 @@ ROOTS = [
     f'{M}:TransferCoordinatorController.add_transfer_coordinator',
     f'{M}:TransferCoordinatorController.remove_transfer_coordinator',
     f'{TASK}.__call__', f'{T}:SubmissionTask._main',
+    's3transfer.upload:UploadSubmissionTask._submit', 's3transfer.upload:UploadSubmissionTask._submit_upload_request',
+    's3transfer.upload:UploadSubmissionTask._submit_multipart_request',
+    's3transfer.copies:CopySubmissionTask._submit', 's3transfer.copies:CopySubmissionTask._submit_copy_request',
+    's3transfer.copies:CopySubmissionTask._submit_multipart_request',
+    's3transfer.download:DownloadSubmissionTask._submit', 's3transfer.download:DownloadSubmissionTask._submit_download_request',
+    's3transfer.download:DownloadSubmissionTask._submit_ranged_download_request',
+    's3transfer.delete:DeleteSubmissionTask._submit',
+    's3transfer.download:DownloadNonSeekableOutputManager.get_io_write_tasks',
 ]
 
 LEVEL = 'other'
